@@ -1,4 +1,5 @@
 import Sp.FlagCombos
+import Sp.FlatCanon
 
 /-! spike (C11) part 4: adding the simplex whose facets are given by name (general form), and
 the specification of `simplexWithFaces` -/
@@ -30,8 +31,9 @@ theorem addFacets {cN : C} {fs : List Name} {nm : Name} {k : Nat} {B : Finset Na
     (hB : B.card = k + 1)
     (hfresh : cN.contains nm = false)
     (hnodup : ∀ s ∈ cN.ofOrder k, setEqB s.faces fs = false) :
-    ∃ c'' bs, cN.addSimplex fs nm = .ok c'' ∧ Inv c'' ∧
-      c''.simps = insertSorted ⟨nm, k, fs, bs⟩ cN.simps ∧ bs.toFinset = B ∧ c''.seq = cN.seq := by
+    ∃ c'' fs' bs, cN.addSimplex fs nm = .ok c'' ∧ Inv c'' ∧
+      c''.simps = insertSorted ⟨nm, k, fs', bs⟩ cN.simps ∧ fs'.toFinset = fs.toFinset ∧ bs.toFinset = B ∧
+      c''.seq = cN.seq := by
   classical
   have hbasisOf : ∀ t ∈ cN.simps, cN.basisOf t.name = t.basis := by
     intro t ht; unfold Cx.basisOf; rw [lookup_of_mem hI ht]; rfl
@@ -71,7 +73,12 @@ theorem addFacets {cN : C} {fs : List Name} {nm : Name} {k : Nat} {B : Finset Na
       rw [← hn, orderOf_of_mem hI ht, ho, hk'])
     (by rw [hk']; exact hnodup)
   rw [hk'] at hsucc
-  exact ⟨_, _, hsucc, addSimplex_ok_inv hI hcontract hsucc, rfl, hunion, rfl⟩
+  have hfaceN : ∀ f ∈ fs, ∃ t ∈ cN.simps, t.name = f := fun f hf => by
+    obtain ⟨t, ht, hn, -⟩ := hface f hf; exact ⟨t, ht, hn⟩
+  refine ⟨_, canonFaces cN k fs, canonBasis cN fs, hsucc, addSimplex_ok_inv hI hcontract hsucc, rfl, ?_, ?_, rfl⟩
+  · exact canonFaces_toFinset (fun f hf => by
+      obtain ⟨t, ht, hn, ho, -⟩ := hface f hf; exact ⟨t, ht, hn, ho⟩)
+  · rw [canonBasis_toFinset hI hfaceN, hunion]
 
 #print axioms addFacets
 end Flat
